@@ -2,16 +2,23 @@
 # Theorems: coq/Properties/C07.v. Correspondence: real actors vs Actor.actor_step projected on errors, acknowledgements and
 # starts; system runs with failing subsets (gated timing of the failure relative to siblings), oracle = non-zero exit naming a
 # failing target, no start line of any transitive dependent.
-from slices import actor, engine
+from slices import actor, engine, watchrun
 
 
 def keep(o):
     return o.startswith('ERR:') or ('<-Ok:' in o)
 
 
+def watch_failures(ck):
+    """watch mode: a version of an input that makes the script fail, dependents must stay blocked until the repair"""
+    found, _known = watchrun.campaign(ck, 'C07', 8 if ck.tier == 'quick' else 90, break_bias=True)
+    return found
+
+
 def run(ck):
     engine.check_engine(ck, 'C07', actor.proj(keep_out=keep, keys=('starts', 'exited')),
-                        'execution errors + Ok messages sent + script starts + actor exit', fail_p=0.75, gated_p=0.7)
+                        'execution errors + Ok messages sent + script starts + actor exit', fail_p=0.75, gated_p=0.7,
+                        n_sys_quick=18, extra=watch_failures)
 
 
 def replay(ck, path):
